@@ -54,15 +54,7 @@ def c12(tier):
         else:
             ans = a["answers"]
         traces.append({"id": c["id"], "s": c["s"], "answers": ans})
-    d = workdir("C12")
-    path = os.path.join(d, "traces.ndjson")
-    tlc.write_ndjson(path, traces)
-    res = tlc.run_tlc("Parser", env={"GEN": 0, "MAXLEN": 0, "CASES": path}, workers=max(2, NCPU - 2), timeout=1800)
-    rep.add_tlc(res)
-    verdicts = {r["id"]: r for r in res.records if "verdict" in r}
-    if len(verdicts) != len(traces):
-        raise ToolError("Parser validation returned %d verdicts for %d cases\n%s" % (
-            len(verdicts), len(traces), res.raw_tail))
+    verdicts = tlc.validate_in_chunks("Parser", traces, rep, "C12", chunk=40000, env={"GEN": 0, "MAXLEN": 0})
     rep.count("traces_validated_against_impl", len(traces))
     nontrivial = 0
     for c, t in zip(cases, traces):
